@@ -431,7 +431,9 @@ class FunctionVerifier:
                 comps[c] = sval
             if not is_float_dtype(o.dtype) and not is_bool_dtype(o.dtype) and prog:
                 srng, drng = DTYPES[so.dtype], DTYPES[o.dtype]
-                if srng is None or srng[0] < drng[0] or srng[1] > drng[1]:
+                if so.dtype == o.dtype or (so.dtype == "iN" and o.dtype == "i8") or (so.dtype == "i1" and o.dtype == "iN"):
+                    pass
+                elif srng is None or "iN" in (so.dtype, o.dtype) or srng[0] < drng[0] or srng[1] > drng[1]:
                     raise VerifError("narrowing array copy not supported")
         else:
             terms = self.coerce_elem(st, o.dtype, val, node, prog)
@@ -975,7 +977,7 @@ class FunctionVerifier:
 
         def visit(stmts):
             for s in stmts:
-                if isinstance(s, (ast.Assign, ast.AugAssign, ast.Expr, ast.AnnAssign, ast.Assert)):
+                if isinstance(s, (ast.Assign, ast.AugAssign, ast.Expr, ast.AnnAssign, ast.Assert, ast.Return)):
                     t = ast.unparse(s)
                     k = counts.get(t, 0)
                     counts[t] = k + 1
@@ -1630,7 +1632,7 @@ class FunctionVerifier:
         if kind == "bool":
             return SBool(self.fresh(name, B))
         if kind == "arr":
-            dt = {"int": "i8", "float": "f8", "bool": "b1"}.get(ty[1], ty[1])
+            dt = {"int": "i8", "float": "f8", "xfloat": "f8", "bool": "b1"}.get(ty[1], ty[1])
             a = self.fresh_array(st, name, dt, ty[2])
             if self.is_lemma:
                 return self.arr_value(st, a)
@@ -1648,6 +1650,7 @@ class FunctionVerifier:
     def verify(self):
         cd = self.cd
         st = State()
+        st.assumes.append(IN_AXIOM)
         if self.is_lemma:
             body = cd.body
             self.real_assigned = set()
